@@ -265,6 +265,8 @@ func checkC08(c *Ctx, r *Report) {
 	}
 
 	checkBufferViews(c, r, "buffer-views")
+	checkDecoderAcceptsSerialised(c, r)
+	checkDecodedPadConsistent(c, r)
 	checkAESPadConvention(c, r)
 	r.Rule("aes-pad-arithmetic", "the AES serialiser pads every payload length to a block multiple with 0 ≤ n ≤ 15 pad bytes (what the decoder requires)", 1)
 	if fn := c.Method("pkg/ipmi", "AES128CBC", "SerializeTo"); fn != nil {
@@ -447,4 +449,93 @@ func checkAESPadConvention(c *Ctx, r *Report) {
 		return
 	}
 	r.Check(ok, c.FnName(ser)+"|pad bytes", ser.Pos(), "trailer[i]=i+1 for i<n, trailer[n]=n, length n+1", "the AES trailer is not 1,2,…,n followed by n: "+whyNot)
+}
+
+// serialisedEncodings: boundary outputs of the two-way layers' serialisers, written down from
+// the specification (not read off the code): the shortest and the block-boundary encodings a
+// correct serialiser produces. The decoder of the same layer must have a success path for
+// each — a guard off by one on the decoding side rejects exactly these.
+var serialisedEncodings = []minimalEncoding{
+	{Pkg: "pkg/ipmi", Type: "AES128CBC", Method: "DecodeFromBytes", Name: "empty payload (IV, pad 1..15, pad length 15)", Len: 32, Bytes: map[int64]int64{31: 15}, Ref: "IPMI v2.0 table 13-20"},
+	{Pkg: "pkg/ipmi", Type: "AES128CBC", Method: "DecodeFromBytes", Name: "1-byte payload (pad length 14)", Len: 32, Bytes: map[int64]int64{31: 14}, Ref: "IPMI v2.0 table 13-20"},
+	{Pkg: "pkg/ipmi", Type: "AES128CBC", Method: "DecodeFromBytes", Name: "15-byte payload (pad length 0)", Len: 32, Bytes: map[int64]int64{31: 0}, Ref: "IPMI v2.0 table 13-20"},
+	{Pkg: "pkg/ipmi", Type: "AES128CBC", Method: "DecodeFromBytes", Name: "16-byte payload (pad length 15, two blocks)", Len: 48, Bytes: map[int64]int64{47: 15}, Ref: "IPMI v2.0 table 13-20"},
+	{Pkg: "pkg/ipmi", Type: "V2Session", Method: "DecodeFromBytes", Name: "empty unauthenticated payload", Len: 12, Bytes: map[int64]int64{0: 6, 1: 0, 10: 0, 11: 0}, Ref: "IPMI v2.0 §13.6"},
+	{Pkg: "pkg/ipmi", Type: "V2Session", Method: "DecodeFromBytes", Name: "empty unauthenticated OEM payload", Len: 18, Bytes: map[int64]int64{0: 6, 1: 2, 16: 0, 17: 0}, Ref: "IPMI v2.0 §13.6 (OEM IANA and payload ID present for payload type 2)"},
+	{Pkg: "pkg/ipmi", Type: "V1Session", Method: "DecodeFromBytes", Name: "empty unauthenticated payload", Len: 10, Bytes: map[int64]int64{0: 0, 9: 0}, Ref: "IPMI v2.0 §13.6 (v1.5 format, authentication type none)"},
+	{Pkg: "pkg/ipmi", Type: "RAKPMessage1", Method: "DecodeFromBytes", Name: "empty username", Len: 28, Bytes: map[int64]int64{27: 0}, Ref: "IPMI v2.0 §13.20"},
+	{Pkg: "pkg/ipmi", Type: "RAKPMessage1", Method: "DecodeFromBytes", Name: "16-byte username", Len: 44, Bytes: map[int64]int64{27: 16}, Ref: "IPMI v2.0 §13.20"},
+}
+
+func checkDecoderAcceptsSerialised(c *Ctx, r *Report) {
+	r.Rule("decoder-accepts-serialised", "the decoder of a two-way layer has a success path for the shortest and the block-boundary encodings its serialiser produces", len(serialisedEncodings))
+	for _, m := range serialisedEncodings {
+		fn := c.Method(m.Pkg, m.Type, m.Method)
+		if fn == nil {
+			r.Lost(m.Type + "." + m.Method)
+			continue
+		}
+		ok, n := acceptsMinimal(c, fn, m)
+		r.Check(ok, m.Type+"."+m.Method+"|"+m.Name, fn.Pos(), fmt.Sprintf("accepted (%d success paths examined)", n), fmt.Sprintf("no success path accepts a %d-byte %s (%s): the decoder rejects what the serialiser produces", m.Len, m.Name, m.Ref))
+	}
+}
+
+// checkDecodedPadConsistent: the session wrapper's decoder must find the integrity trailer
+// where its serialiser put it. A decoder that *reads* the pad off the wire (counting the 0xFF
+// bytes) does so by construction. One that *computes* the pad from the payload length must
+// compute what the serialiser computes: header + payload + pad + 2 ≡ 0 (mod 4), 0 ≤ pad ≤ 3,
+// with the header length of the path (12 bytes, 18 with the OEM fields) — asked of engine E1
+// on every authenticated success path whose Pad does not come from a scan.
+func checkDecodedPadConsistent(c *Ctx, r *Report) {
+	r.Rule("decoded-pad-consistent", "the session wrapper's decoder reads the integrity pad off the wire, or computes it so that header + payload + pad + 2 ≡ 0 (mod 4) with the path's header length", 1)
+	fn := c.Method("pkg/ipmi", "V2Session", "DecodeFromBytes")
+	if fn == nil {
+		r.Lost("ipmi.V2Session.DecodeFromBytes")
+		return
+	}
+	name := "V2Session.DecodeFromBytes"
+	evs, why := extractEvents(c, fn, nil)
+	if why != "" {
+		r.Unk(name+"|paths", fn.Pos(), why)
+		return
+	}
+	nAuth, nComputed := 0, 0
+	ok, whyNot := true, ""
+	for _, le := range evs {
+		if !le.OK {
+			continue
+		}
+		fields := le.lastWrites("field")
+		if sig, has := fields["Signature"]; !has || sig == "empty" || sig == "nil" {
+			continue // no trailer on this path
+		}
+		pad, hasPad := le.Fields["Pad"]
+		length, hasLen := le.Fields["Length"]
+		var hdr int64
+		if _, err := fmt.Sscanf(fields["BaseLayer.Contents"], "d[0:%d]", &hdr); err != nil || !hasPad || !hasLen {
+			ok, whyNot = false, "cannot read the header length, payload length or pad of an authenticated success path"
+			continue
+		}
+		nAuth++
+		scanned := false
+		for sy := range pad.T {
+			if le.SymName != nil && strings.Contains(le.SymName(sy), "@loop") {
+				scanned = true
+			}
+		}
+		if scanned {
+			continue
+		}
+		nComputed++
+		total := pad.add(length, 1).addConst(hdr + 2)
+		if !(entails(le.Cons, geq(pad, linConst(0))) && entails(le.Cons, leq(pad, linConst(3))) && divisibleUnder(c, le.Cons, total, 4)) {
+			ok = false
+			whyNot = fmt.Sprintf("with a %d-byte header the computed pad %s does not make header + payload + pad + 2 a multiple of 4 (the serialiser's pad does): the AuthCode is read from the wrong offset", hdr, fields["Pad"])
+		}
+	}
+	if nAuth == 0 {
+		r.Unk(name+"|pad", fn.Pos(), "no authenticated success path")
+		return
+	}
+	r.Check(ok, name+"|pad", fn.Pos(), fmt.Sprintf("%d authenticated success paths: pad read off the wire on %d, computed consistently on %d", nAuth, nAuth-nComputed, nComputed), whyNot)
 }
